@@ -1,11 +1,436 @@
-//! C11 — check not built yet.
-use mc_core::Args;
-use serde_json::Value;
+//! C11 — key encodings round-trip and derived addresses belong to their keys.
+//!
+//! Enumerated (complete product, no sampling): seed shapes x ZIP 32 accounts x networks x key
+//! component subsets x diversifier-index alphabet x all `UnifiedAddressRequest`s x key levels
+//! (USK -> UFVK -> UIVK, each also after an encode/decode round trip).
+//!
+//! Oracles (all commutation / round-trip laws, no hand-written expected values):
+//!  * `enc`   encode/decode/re-encode equality and component preservation at every level (USK bytes,
+//!            UFVK/UIVK strings, legacy Sapling ESK/EFVK/address, transparent keys/addresses/WIF/DER);
+//!  * `addr`  every level returns the same result for `address(j, request)`, and that result is
+//!            what a plain-boolean model of the documented Require/Allow/Omit semantics gives:
+//!            exactly the requested receivers the key supports, each equal to the receiver derived
+//!            from the *spending* side of the component keys; the key recognises the address;
+//!  * `find`  `find_address` returns the smallest index >= start whose address conforms;
+//!  * `recog` Sapling/Orchard diversifier and scope recovery, transparent pubkey-hash law;
+//!  * `note`  Sapling / Orchard / Ironwood notes to each derived receiver decrypt under the
+//!            matching-scope IVK obtained at every level and under no other key of the lattice;
+//!  * `req`, `tindex`, `gap` small boundary lattices of the request and index machinery.
+//!
+//! Index alphabet, from the code: 0..=12 (dense start), first Sapling-invalid index and the next
+//! valid one per key (`address_at(j) == None`, the only search trigger in `find_address`),
+//! 2^31-1 | 2^31 (`NonHardenedChildIndex::from_index`), 2^32-1 | 2^32 (low four bytes vs the
+//! `rest.iter().any(..)` test in `to_transparent_child_index`), 2^88-2 | 2^88-1
+//! (`DiversifierIndex::increment` overflow -> `DiversifierSpaceExhausted`).
 
-pub fn replay(_kind: &str, _case: &Value) -> Result<(), String> {
-    Err("C11: check not built".into())
+mod addr;
+mod enc;
+mod keys;
+mod misc;
+mod model;
+mod notes;
+
+use keys::{subset_name, KeyCtx, MAX_DI, NET_NAMES, O, S, SEED_NAMES, T};
+use mc_core::{Args, Run, Tier};
+use model::Req;
+use rayon::prelude::*;
+use serde_json::{json, Value};
+use std::sync::atomic::{AtomicU64, Ordering};
+
+/// Index alphabet for one key.
+fn index_alphabet(ctx: &KeyCtx, tier: Tier) -> Vec<u128> {
+    let mut v: Vec<u128> = (0..=12u128).collect();
+    let mut from = 0u128;
+    for _ in 0..tier.pick(1, 3) {
+        if let Some(inv) = ctx.first_sapling(from, false) {
+            v.push(inv);
+            if let Some(nv) = ctx.first_sapling(inv + 1, true) {
+                v.push(nv);
+                from = nv + 1;
+            }
+        }
+        from = from.max(13);
+    }
+    v.extend([(1u128 << 31) - 1, 1u128 << 31, (1u128 << 32) - 1, 1u128 << 32, MAX_DI - 1, MAX_DI]);
+    if tier == Tier::Thorough {
+        v.extend(13..=40u128);
+        v.extend([(1u128 << 31) - 2, (1u128 << 31) + 1, (1u128 << 32) + 1, (1u128 << 64) - 1, 1u128 << 64, 1u128 << 87]);
+    }
+    v.sort();
+    v.dedup();
+    v
 }
 
-pub fn run(_args: &Args) -> i32 {
-    mc_core::machinery_error("C11: check not built")
+fn s(v: &Value, k: &str) -> Result<String, String> {
+    v[k].as_str().map(|x| x.to_string()).ok_or_else(|| format!("case lacks {k}"))
+}
+fn n(v: &Value, k: &str) -> Result<u64, String> {
+    v[k].as_u64().ok_or_else(|| format!("case lacks {k}"))
+}
+fn big(v: &Value, k: &str) -> Result<u128, String> {
+    v[k].as_str().and_then(|x| x.parse().ok()).ok_or_else(|| format!("case lacks {k}"))
+}
+fn ctx_of(c: &Value) -> Result<KeyCtx, String> {
+    KeyCtx::build(&s(c, "seed")?, n(c, "account")? as u32, &s(c, "net")?)
+}
+fn key_json(ctx: &KeyCtx) -> Value {
+    json!({"seed": ctx.seed_name, "account": ctx.account, "net": ctx.net_name})
+}
+fn with(mut base: Value, extra: Value) -> Value {
+    if let (Some(b), Some(e)) = (base.as_object_mut(), extra.as_object()) {
+        for (k, v) in e {
+            b.insert(k.clone(), v.clone());
+        }
+    }
+    base
+}
+
+/// A key unrelated to `ctx` (another account of the same seed and network).
+fn foreign_uivk(ctx: &KeyCtx) -> Result<zcash_keys::keys::UnifiedIncomingViewingKey, String> {
+    let other = if ctx.account == 0 { 1 } else { ctx.account - 1 };
+    let f = KeyCtx::build(&ctx.seed_name, other, &ctx.net_name)?;
+    let m = if f.has_t() { O | S | T } else { O | S };
+    Ok(f.levels(m)?.uivk)
+}
+
+pub fn replay(kind: &str, c: &Value) -> Result<(), String> {
+    match kind {
+        "enc" => enc::check_encodings(&ctx_of(c)?).map(|_| ()),
+        "addr" => {
+            let ctx = ctx_of(c)?;
+            let lv = ctx.levels(n(c, "subset")? as u8)?;
+            let at = addr::At::new(&ctx, big(c, "j")?);
+            let req = Req::parse(&s(c, "req")?).ok_or("bad req")?;
+            addr::check_address(&ctx, &lv, &at, req, &foreign_uivk(&ctx)?).map(|_| ())
+        }
+        "find" => {
+            let ctx = ctx_of(c)?;
+            let lv = ctx.levels(n(c, "subset")? as u8)?;
+            let req = Req::parse(&s(c, "req")?).ok_or("bad req")?;
+            addr::check_find(&ctx, &lv, &addr::Window::new(&ctx, big(c, "j")?), req).map(|_| ())
+        }
+        "recog" => addr::check_recognition(&ctx_of(c)?, big(c, "j")?).map(|_| ()),
+        "uarecog" => {
+            let ctx = ctx_of(c)?;
+            let lvs: Vec<keys::Levels> = ctx.subsets().into_iter().map(|m| ctx.levels(m)).collect::<Result<_, _>>()?;
+            addr::check_ua_recognition(&ctx, &lvs, &addr::Window::new(&ctx, big(c, "j")?), &foreign_uivk(&ctx)?).map(|_| ())
+        }
+        "note" => {
+            let ctx = ctx_of(c)?;
+            let seeds: Vec<String> = c["lattice_seeds"].as_array().ok_or("lattice_seeds")?.iter().filter_map(|x| x.as_str().map(|y| y.to_string())).collect();
+            let accounts: Vec<u32> = c["lattice_accounts"].as_array().ok_or("lattice_accounts")?.iter().filter_map(|x| x.as_u64().map(|y| y as u32)).collect();
+            let lat = notes::Lattice::build(&seeds, &accounts)?;
+            let lv = ctx.levels(if ctx.has_t() { O | S | T } else { O | S })?;
+            notes::check_note(&lat, &ctx, &notes::Own::new(&lv), c["internal"].as_bool().ok_or("internal")?, &s(c, "pool")?, big(c, "j")?).map(|_| ())
+        }
+        "req" => misc::check_request_pair(Req::parse(&s(c, "a")?).ok_or("bad a")?, Req::parse(&s(c, "b")?).ok_or("bad b")?).map(|_| ()),
+        "tindex" => misc::check_tindex(n(c, "v")?, n(c, "d")?).map(|_| ()),
+        "gap" => {
+            let ctx = ctx_of(c)?;
+            let lv = ctx.levels(n(c, "subset")? as u8)?;
+            let req = Req::parse(&s(c, "req")?).ok_or("bad req")?;
+            misc::check_gap_list(&ctx, &lv, n(c, "scope")? as u32, req, n(c, "start")?, c["with_ufvk"].as_bool().ok_or("with_ufvk")?, c["require_key"].as_bool().ok_or("require_key")?).map(|_| ())
+        }
+        _ => Err(format!("unknown kind {kind}")),
+    }
+}
+
+pub fn run(args: &Args) -> i32 {
+    let run = Run::new(args, "exploration");
+    run.set_rule(
+        "complete product of seed shapes x ZIP 32 accounts x networks x key component subsets x diversifier-index alphabet x all \
+         UnifiedAddressRequests (AllAvailableKeys + every constructible Require/Allow/Omit triple) x key levels (UFVK, UIVK, decoded UFVK, \
+         decoded UIVK, UFVK of the decoded USK); a case is one (key, subset, index, request) and is distinct by that tuple; it is non-trivial \
+         because every case derives addresses on the real code and is compared with level-0 receivers derived from the spending-side \
+         component keys and with a boolean model of the documented request semantics. Notes: one note per (key, scope, pool, index) tried \
+         against every incoming viewing key of the lattice. Encodings are evaluated for every key of seeds x accounts x networks; the          address/find/recognition/gap/note product runs over the keys named by the address_product_* sections (thorough: all of them).",
+    );
+    run.section(
+        "observed_only",
+        json!([
+            "enc:observed:decoded-uivk-*: whether decode(encode(uivk)) compares equal to / is subsumed by the original under the API's own PartialEq/subsumes; key equality is not part of C11 (on this tree it is NOT equal whenever a transparent item is present: ExternalIvk's derived PartialEq compares BIP 32 metadata that deserialize fills with dummies)",
+            "recog:sapling:internal:dfvk-decrypt_diversifier-none(external-crate): sapling-crypto's DiversifiableFullViewingKey::decrypt_diversifier on an internal address (trusted external crate; scope recovery for internal Sapling addresses is checked through diversified_change_address instead)",
+            "tindex:observed:empty-range-yields-N-items: what NonHardenedChildRange yields for an empty range (range cardinality for empty ranges is not part of C11)"
+        ]),
+    );
+    run.assume("seeds are a finite set of shapes (all-zero, all-ones, counting; lengths 32, 64, 252): the claim covered is the commutation law over the index/request/level lattice, not 'all seeds'");
+    run.assume("orchard, sapling-crypto, zcash_note_encryption, bip32, secp256k1 are trusted: which diversifier indices are valid for Sapling is taken from sapling-crypto's own derivation on the spending-side key");
+    run.assume("Require of a receiver type the key has no item for must be an error; which variant (KeyNotAvailable / ReceiverTypeNotSupported / ShieldedReceiverRequired) is not demanded because the variant docs and receiver_requirements disagree");
+    run.assume("test and regtest share coin type 1 and the transparent prefixes (documented): keys are identified by (seed, coin type, account); their string encodings still differ by prefix and must not cross-decode");
+    run.assume("UnifiedSpendingKey::from_seed is fallible by signature; with a transparent component only BIP 32 seed lengths (32, 64 here) can succeed, so the 252-byte seed is exercised on the shielded components and legacy Sapling encodings only");
+
+    let tier = args.tier;
+    let seeds: Vec<String> = SEED_NAMES.iter().map(|x| x.to_string()).collect();
+    let accounts: Vec<u32> = tier.pick(vec![0, (1u32 << 31) - 1], vec![0, 1, 2, (1u32 << 31) - 2, (1u32 << 31) - 1]);
+    // Encodings are checked for every key of seeds x accounts x networks in both tiers. The
+    // address / find / recognition / gap / note product ("deep" keys) is the full product in
+    // thorough; quick restricts it to the two longest seed shapes (one with, one without a
+    // transparent component), the two extreme accounts and main + test (test and regtest are the
+    // same keys: coin type 1, and address derivation never looks at the network).
+    let deep_seeds: Vec<&str> = tier.pick(vec!["count64", "count252"], SEED_NAMES.to_vec());
+    let deep_nets: Vec<&str> = tier.pick(vec!["main", "test"], NET_NAMES.to_vec());
+    let deep = |c: &KeyCtx| deep_seeds.contains(&c.seed_name.as_str()) && deep_nets.contains(&c.net_name.as_str());
+    run.section("seeds", json!(seeds));
+    run.section("accounts", json!(accounts));
+    run.section("networks", json!(NET_NAMES));
+    run.section("address_product_seeds", json!(deep_seeds));
+    run.section("address_product_networks", json!(deep_nets));
+
+    // ---- key contexts ----
+    let mut specs = Vec::new();
+    for sd in &seeds {
+        for &a in &accounts {
+            for nn in NET_NAMES {
+                specs.push((sd.clone(), a, nn.to_string()));
+            }
+        }
+    }
+    let ctxs: Vec<KeyCtx> = specs
+        .par_iter()
+        .map(|(sd, a, nn)| KeyCtx::build(sd, *a, nn).unwrap_or_else(|e| mc_core::machinery_error(&format!("cannot build key {sd}/{a}/{nn}: {e}"))))
+        .collect();
+    run.section("keys", json!(ctxs.len()));
+
+    // ---- request and index boundary lattices ----
+    if let Err(e) = misc::check_request_constants() {
+        run.fail("req", "request-constants".into(), e, json!({"a": "AAA", "b": "AAA"}));
+    }
+    let reqs_all = Req::all();
+    let customs: Vec<Req> = reqs_all.iter().copied().filter(|r| matches!(r, Req::Custom(..))).collect();
+    let mut cnt = 0u64;
+    for &a in &customs {
+        for &b in &customs {
+            cnt += 1;
+            match misc::check_request_pair(a, b) {
+                Ok(o) => run.outcome(&format!("req:{o}")),
+                Err(m) => run.fail("req", format!("req:{}x{}", a.code(), b.code()), m, json!({"a": a.code(), "b": b.code()})),
+            }
+        }
+    }
+    let tl = misc::tindex_lattice();
+    for &v in &tl {
+        for d in [0u64, 1, 2, 3, 4, 10, (1 << 31) - 1, 1 << 31, u32::MAX as u64] {
+            cnt += 1;
+            match misc::check_tindex(v, d) {
+                Ok(os) => os.iter().for_each(|o| run.outcome(&format!("tindex:{o}"))),
+                Err(m) => run.fail("tindex", format!("tindex:{v}+{d}"), m, json!({"v": v, "d": d})),
+            }
+        }
+    }
+    run.eval_distinct(cnt);
+
+    // ---- encodings ----
+    let mut phases = serde_json::Map::new();
+    let mut t0 = run.elapsed();
+    let mut lap = |name: &str, run: &Run| {
+        let t = run.elapsed();
+        phases.insert(name.to_string(), json!(((t - t0) * 10.0).round() / 10.0));
+        t0 = t;
+    };
+    ctxs.par_iter().for_each(|ctx| match enc::check_encodings(ctx) {
+        Ok(os) => {
+            run.eval_distinct(os.len() as u64);
+            os.iter().for_each(|o| run.outcome(&format!("enc:{o}")));
+        }
+        Err(m) => run.fail("enc", format!("enc:{}", ctx.id()), m, key_json(ctx)),
+    });
+    run.sample(json!({"kind": "enc", "key": "zero32/0/main", "laws": ["USK to_bytes/from_bytes", "UFVK+UIVK string per component subset", "Sapling ESK/EFVK/address", "transparent keys, addresses, WIF, DER"]}));
+
+    lap("enc_s", &run);
+    // ---- addresses: (key, subset, index) units, all requests inside ----
+    let reqs: Vec<Req> = reqs_all.iter().copied().filter(|r| r.constructible()).collect();
+    run.section("requests", json!(reqs.iter().map(|r| r.code()).collect::<Vec<_>>()));
+    struct Unit<'a> {
+        ctx: &'a KeyCtx,
+        j: u128,
+    }
+    let mut units = Vec::new();
+    let mut alphabets = serde_json::Map::new();
+    for ctx in ctxs.iter().filter(|c| deep(c)) {
+        let al = index_alphabet(ctx, tier);
+        if alphabets.len() < 4 {
+            alphabets.insert(ctx.id(), json!(al.iter().map(|x| x.to_string()).collect::<Vec<_>>()));
+        }
+        for j in al {
+            units.push(Unit { ctx, j });
+        }
+    }
+    run.section("index_alphabet_examples", Value::Object(alphabets));
+    // per-key level sets and a foreign key, built once
+    let prepared: Vec<(Vec<keys::Levels>, zcash_keys::keys::UnifiedIncomingViewingKey)> = ctxs
+        .par_iter()
+        .map(|ctx| {
+            let lvs = ctx.subsets().into_iter().map(|m| ctx.levels(m).unwrap_or_else(|e| mc_core::machinery_error(&format!("levels {} {}: {e}", ctx.id(), subset_name(m))))).collect();
+            let f = foreign_uivk(ctx).unwrap_or_else(|e| mc_core::machinery_error(&format!("foreign key for {}: {e}", ctx.id())));
+            (lvs, f)
+        })
+        .collect();
+    let idx_of = |ctx: &KeyCtx| ctxs.iter().position(|c| std::ptr::eq(c, ctx)).expect("ctx index");
+    // Wall budget per phase, so that a slow machine truncates every phase a little instead of
+    // starving the later ones; regtest keys (the same keys as test) are derived last.
+    let addr_cap = tier.pick(36.0, 380.0);
+    let gap_cap = tier.pick(40.0, 420.0);
+    let wall_cap = tier.pick(50.0, 540.0);
+    let skipped_addr = AtomicU64::new(0);
+    let skipped = AtomicU64::new(0);
+    units.sort_by_key(|u| u.ctx.net_name == "regtest");
+    let split = units.iter().position(|u| u.ctx.net_name == "regtest").unwrap_or(units.len());
+    let (primary, secondary) = units.split_at(split);
+    let addr_unit = |u: &Unit| {
+        if run.elapsed() > addr_cap {
+            skipped_addr.fetch_add(1, Ordering::Relaxed);
+            return;
+        }
+        let ctx = u.ctx;
+        let (lvs, foreign) = &prepared[idx_of(ctx)];
+        let win = addr::Window::new(ctx, u.j);
+        let at = &win.at;
+        let mut evals = 0u64;
+        match addr::check_recognition(ctx, u.j) {
+            Ok(os) => {
+                evals += 1;
+                os.iter().for_each(|o| run.outcome(&format!("recog:{o}")));
+            }
+            Err(m) => run.fail("recog", format!("recog:{}:j={}", ctx.id(), u.j), m, with(key_json(ctx), json!({"j": u.j.to_string()}))),
+        }
+        match addr::check_ua_recognition(ctx, lvs, &win, foreign) {
+            Ok(os) => {
+                evals += os.len() as u64;
+                os.iter().for_each(|o| run.outcome(&format!("uarecog:{o}")));
+            }
+            Err(m) => run.fail("uarecog", format!("uarecog:{}:j={}", ctx.id(), u.j), m, with(key_json(ctx), json!({"j": u.j.to_string()}))),
+        }
+        for lv in lvs {
+            for &req in &reqs {
+                let case = || with(key_json(ctx), json!({"subset": lv.mask, "j": u.j.to_string(), "req": req.code()}));
+                let key = |k: &str| format!("{k}:{}:{}:j={}:{}", ctx.id(), subset_name(lv.mask), u.j, req.code());
+                evals += 2;
+                match addr::check_address(ctx, lv, at, req, foreign) {
+                    Ok(o) => run.outcome(&format!("addr:{o}")),
+                    Err(m) => run.fail("addr", key("addr"), m, case()),
+                }
+                match addr::check_find(ctx, lv, &win, req) {
+                    Ok(o) => run.outcome(&format!("find:{o}")),
+                    Err(m) => run.fail("find", key("find"), m, case()),
+                }
+            }
+        }
+        run.eval_distinct(evals);
+    };
+    primary.par_iter().for_each(addr_unit);
+    secondary.par_iter().for_each(addr_unit);
+    run.sample(json!({"kind": "addr", "key": "count32/0/main", "subset": "OST", "j": "first Sapling-invalid index", "req": "ARA", "expected": "InvalidSaplingDiversifierIndex(j) at every level"}));
+    run.sample(json!({"kind": "addr", "key": "count32/0/main", "subset": "OST", "j": (1u128 << 32).to_string(), "req": "AAA", "expected": "address with Orchard (+Sapling if valid) and no transparent receiver"}));
+    run.sample(json!({"kind": "find", "key": "ff32/0/test", "subset": "ST", "j": MAX_DI.to_string(), "req": "ORO", "expected": "DiversifierSpaceExhausted iff the last index is invalid for Sapling"}));
+
+    lap("addr_find_recog_s", &run);
+    // ---- gap-limit address lists ----
+    let gap_units: Vec<(&KeyCtx, usize)> = ctxs.iter().enumerate().filter(|(_, c)| c.has_t() && deep(c)).map(|(i, c)| (c, i)).collect();
+    gap_units.par_iter().for_each(|(ctx, i)| {
+        if run.elapsed() > gap_cap {
+            skipped.fetch_add(1, Ordering::Relaxed);
+            return;
+        }
+        let (lvs, _) = &prepared[*i];
+        let inv = ctx.first_sapling(0, false).unwrap_or(0) as u64;
+        let starts = [0u64, inv.saturating_sub(1), (1u64 << 31) - 3];
+        let mut evals = 0u64;
+        for lv in lvs {
+            for scope in [0u32, 1, 2, 7] {
+                let rs: Vec<Req> = if scope == 0 { reqs.clone() } else { vec![Req::All] };
+                for &req in &rs {
+                    for &start in &starts {
+                        for (with_ufvk, require_key) in [(true, true), (true, false), (false, true), (false, false)] {
+                            // `require_key` and a missing UFVK only matter for the key lookup: one start / request suffices
+                            if (!with_ufvk || !require_key) && (start != 0 || req != Req::All) {
+                                continue;
+                            }
+                            evals += 1;
+                            match misc::check_gap_list(ctx, lv, scope, req, start, with_ufvk, require_key) {
+                                Ok(o) => run.outcome(&format!("gap:{o}")),
+                                Err(m) => run.fail(
+                                    "gap",
+                                    format!("gap:{}:{}:scope{scope}:{}:start={start}:ufvk={with_ufvk}:req_key={require_key}", ctx.id(), subset_name(lv.mask), req.code()),
+                                    m,
+                                    with(key_json(ctx), json!({"subset": lv.mask, "scope": scope, "req": req.code(), "start": start, "with_ufvk": with_ufvk, "require_key": require_key})),
+                                ),
+                            }
+                        }
+                    }
+                }
+            }
+        }
+        run.eval_distinct(evals);
+    });
+
+    lap("gap_s", &run);
+    // ---- notes ----
+    let lat = notes::Lattice::build(&seeds, &accounts).unwrap_or_else(|e| mc_core::machinery_error(&format!("lattice: {e}")));
+    run.section("note_lattice_incoming_viewing_keys", json!(lat.ivks.len()));
+    struct NoteUnit<'a> {
+        ctx: &'a KeyCtx,
+        internal: bool,
+        pool: &'static str,
+        j: u128,
+    }
+    let mut nunits = Vec::new();
+    for ctx in ctxs.iter().filter(|c| deep(c)) {
+        // test and regtest are the same keys (coin type 1): notes are enumerated once per coin type
+        if ctx.net_name == "regtest" {
+            continue;
+        }
+        for j in index_alphabet(ctx, tier) {
+            for internal in [false, true] {
+                for pool in notes::POOLS {
+                    nunits.push(NoteUnit { ctx, internal, pool, j });
+                }
+            }
+        }
+    }
+    let note_own: Vec<Option<notes::Own>> = ctxs
+        .par_iter()
+        .map(|ctx| {
+            deep(ctx).then(|| {
+                let lv = ctx.levels(if ctx.has_t() { O | S | T } else { O | S }).unwrap_or_else(|e| mc_core::machinery_error(&format!("levels: {e}")));
+                notes::Own::new(&lv)
+            })
+        })
+        .collect();
+    let trials = AtomicU64::new(0);
+    nunits.par_iter().for_each(|u| {
+        if run.elapsed() > wall_cap {
+            skipped.fetch_add(1, Ordering::Relaxed);
+            return;
+        }
+        let own = note_own[idx_of(u.ctx)].as_ref().expect("own keys of a deep key");
+        match notes::check_note(&lat, u.ctx, own, u.internal, u.pool, u.j) {
+            Ok(o) => {
+                if o != "no-address-at-index" {
+                    trials.fetch_add(lat.ivks.len() as u64, Ordering::Relaxed);
+                    run.eval_distinct(1);
+                }
+                run.outcome(&format!("note:{}:{}:{o}", u.pool, if u.internal { "internal" } else { "external" }));
+            }
+            Err(m) => run.fail(
+                "note",
+                format!("note:{}:{}:{}:j={}", u.ctx.id(), u.pool, if u.internal { "internal" } else { "external" }, u.j),
+                m,
+                with(key_json(u.ctx), json!({"internal": u.internal, "pool": u.pool, "j": u.j.to_string(), "lattice_seeds": seeds, "lattice_accounts": accounts})),
+            ),
+        }
+    });
+    lap("notes_s", &run);
+    run.section("phase_wall_s", Value::Object(phases));
+    run.section("note_trial_decryptions_against_lattice", json!(trials.load(Ordering::Relaxed)));
+    run.sample(json!({"kind": "note", "key": "count64/0/main", "pool": "ironwood", "scope": "internal", "j": "12", "expected": "decrypts under the internal Orchard IVK of this key at every level, in IronwoodDomain only, and under no other IVK of the lattice"}));
+
+    let (ska, sk) = (skipped_addr.load(Ordering::Relaxed), skipped.load(Ordering::Relaxed));
+    if ska > 0 {
+        run.cap_hit(&format!("address phase wall budget {addr_cap}s: {ska} of {} (key, index) units not evaluated", units.len()));
+    }
+    if sk > 0 {
+        run.cap_hit(&format!("gap/note phase wall budgets {gap_cap}s/{wall_cap}s: {sk} units not evaluated"));
+    }
+    run.require(run.outcomes_distinct() >= 40 || run.failure_count() > 0, "fewer than 40 distinct outcome classes observed");
+    run.finish(&replay)
 }
